@@ -5,6 +5,10 @@ w="${VERIF_WORK:-$PWD/.work/c12.$$}"; mkdir -p "$w"
 if ! lib/instr_build.sh harness/c12 "$w/bin" 2> "$w/build.log"; then
   cat "$w/build.log" >&2; echo "TOOL-ERROR: instrumented build failed" >&2; exit 2
 fi
+# borrowed phase: C11's write-path scenarios (interleaved callers)
+if ! INSTR_REUSE=1 lib/instr_build.sh harness/c11 "$w/bin-c11" 2> "$w/build2.log"; then
+  cat "$w/build2.log" >&2; echo "TOOL-ERROR: instrumented build failed" >&2; exit 2
+fi
 [ "${1:-}" = "--warm" ] && exit 0
 { flock -u 9 && exec 9>&-; } 2>/dev/null  # the build is done: release the shared lock on /repo's working tree (.work/repo.lock)
-VERIF_TUNABLE_snapshotOffset=0 exec "$w/bin" "$@"
+VERIF_BIN_C11="$w/bin-c11" VERIF_TUNABLE_snapshotOffset=0 exec "$w/bin" "$@"
